@@ -37,3 +37,9 @@ package actionlint
 //@   anchor
 //@   ensures meta.SkipOutputs ==> result.Mapped != nil
 //@   ensures !meta.SkipOutputs ==> result.Mapped == nil
+
+// a `with:` value takes the type of its placeholder only when the whole value is that placeholder;
+// text mixed with placeholders is a string
+//@ func (*RuleExpression).checkWorkflowCall
+//@   loop "range c.Inputs":
+//@     body_calls [C14] (*String).IsExpressionAssigned iff m != nil && ok && mi != nil && !istype(mi.Type, "AnyType") && len(ts) == 1
